@@ -287,7 +287,7 @@ pub fn opaque_key(public: Vec<u8>, alg: &'static rcgen::SignatureAlgorithm) -> R
 }
 
 /// Number of loading routes `make_key` cycles through.
-pub const LOADER_ROUTES: usize = 12;
+pub const LOADER_ROUTES: usize = 13;
 
 /// The fixture's Ed25519 key in the 85-octet PKCS#8 v2 layout of ring < 0.17 / rcgen < 0.12.
 #[cfg(feature = "crypto")]
@@ -299,6 +299,33 @@ pub fn ed25519_old_v2(fx: &Fixture) -> Vec<u8> {
 	v.extend_from_slice(&[0xa1, 0x23, 0x03, 0x21, 0x00]);
 	v.extend_from_slice(&fx.raw_public);
 	v
+}
+
+/// The fixture's EC key as a PKCS#8 document whose inner ECPrivateKey carries the optional
+/// `parameters [0]` field (as some toolkits write it). `None` for other key types.
+#[cfg(feature = "crypto")]
+pub fn ec_pk8_with_parameters(fx: &Fixture) -> Option<Vec<u8>> {
+	use crate::der::{children, enc_seq, enc_tlv, read_single, Lints};
+	let curve: &[u64] = match fx.alg {
+		KeyAlg::P256 => &[1, 2, 840, 10045, 3, 1, 7],
+		KeyAlg::P384 => &[1, 3, 132, 0, 34],
+		KeyAlg::P521 => &[1, 3, 132, 0, 35],
+		_ => return None,
+	};
+	let l = Lints::new();
+	let outer = read_single(&fx.pk8, &l, "pkcs8").ok()?;
+	let parts = children(outer.content, &l).ok()?;
+	let inner = read_single(parts.get(2)?.content, &l, "ECPrivateKey").ok()?;
+	let ip = children(inner.content, &l).ok()?;
+	if ip.len() < 2 || ip.iter().any(|t| t.raw.first() == Some(&0xa0)) {
+		return None;
+	}
+	let mut items: Vec<Vec<u8>> = vec![ip[0].raw.to_vec(), ip[1].raw.to_vec(), enc_tlv(0xa0, &crate::der::enc_oid(curve))];
+	items.extend(ip[2..].iter().map(|t| t.raw.to_vec()));
+	let new_inner = enc_seq(&items);
+	let mut top: Vec<Vec<u8>> = vec![parts[0].raw.to_vec(), parts[1].raw.to_vec(), enc_tlv(0x04, &new_inner)];
+	top.extend(parts[3..].iter().map(|t| t.raw.to_vec()));
+	Some(enc_seq(&top))
 }
 
 /// Builds the rcgen key pair a `KeySpec` describes.
@@ -336,7 +363,16 @@ pub fn make_key(k: &KeySpec) -> Result<rcgen::KeyPair, String> {
 			10 if auto_ok && cfg!(feature = "aws_be") && fx.legacy.is_some() => rcgen::KeyPair::from_pem(&crate::pemstrict::encode(legacy_label, fx.legacy.as_ref().unwrap())),
 			// the PKCS#8 v2 layout older ring versions wrote for Ed25519 ([1] { BIT STRING public key })
 			11 if k.alg == KeyAlg::Ed25519 => rcgen::KeyPair::from_pkcs8_der_and_sign_algo(&PrivatePkcs8KeyDer::from(ed25519_old_v2(fx)), alg),
-			7..=11 => rcgen::KeyPair::from_pkcs8_der_and_sign_algo(&pk8, alg),
+			// an EC document with the optional curve parameters inside the ECPrivateKey; back ends that do
+			// not read it fall back to the plain document
+			12 if ec_pk8_with_parameters(fx).is_some() => {
+				let doc = ec_pk8_with_parameters(fx).unwrap();
+				match rcgen::KeyPair::from_pem(&crate::pemstrict::encode("PRIVATE KEY", &doc)) {
+					Ok(k) => Ok(k),
+					Err(_) => rcgen::KeyPair::from_pkcs8_der_and_sign_algo(&pk8, alg),
+				}
+			},
+			7..=12 => rcgen::KeyPair::from_pkcs8_der_and_sign_algo(&pk8, alg),
 			_ => match (&fx.legacy, cfg!(feature = "aws_be")) {
 				// SEC1 / PKCS#1 documents are only documented to load under aws-lc-rs
 				(Some(l), true) => {
